@@ -11,6 +11,7 @@ CONSTANTS
   Depth = 4
   SeqLevels <- QuickLevels
   SeqFlags <- QuickFlags
+  SeqRewire = FALSE
   SeqNames <- IOSeqNames
 INVARIANT ClosedSilent
 INVARIANT OpenShows
